@@ -367,12 +367,17 @@ CHECKS["C12"] = dict(
     min_outcomes=2000,
 )
 CHECKS["C07"] = dict(
-    level="exploration", engine="E1", technique=E1_TECH + "; the scalar operation itself is not re-modelled: the very functor the library stores is applied to reference-broadcast operand elements and the results are compared bit for bit",
-    level_note="trusted: the NumPy broadcast-pairing reference (engine/nmc_ref_c07.hpp, audited against NumPy on 15324 cases), the library's own scalar functors as element oracle, g++ 12.",
+    level="exploration", engine="E1", technique=E1_TECH + "; for the lifting the very functor the library stores is applied to reference-broadcast operand elements and the results are compared bit for bit; the scalar operations themselves are pinned separately "
+              "on a value grid against their documented definitions (unit scalar_ref)",
+    level_note="trusted: the NumPy broadcast-pairing reference (engine/nmc_ref_c07.hpp, audited against NumPy on 15324 cases), the library's own scalar functors as element oracle of the lifting, the PyTorch-documented formulas / <cmath> "
+               "as the oracle of the scalar operations (harness/c07_scalar.cpp), g++ 12.",
     level_text="All 71 ufuncs and 18 activations (12 translation units): all ordered operand-shape pairs of the small scope (compatible and incompatible: the latter must report Nothing), operand kinds ndarray / "
                "transposed lazy view / plain scalar in 7 combinations, 8 element types with all 64 ordered type pairs for add / divide / less / equal and 16 pairs for the rest of the arithmetic-comparison family, "
-               "triples for where, outer forms with dtype; result shape = broadcast shape, element i = op(a[bi_a(i)], b[bi_b(i)]) bit-identically, result element type = decltype(op(a,b)) or the requested dtype.",
+               "triples for where, outer forms with dtype; result shape = broadcast shape, element i = op(a[bi_a(i)], b[bi_b(i)]) bit-identically, result element type = decltype(op(a,b)) or the requested dtype. "
+               "Unit scalar_ref: 56 unary functions (26 activation variants, 30 math ufuncs) x 37-value grid (every threshold of a piecewise definition with a value on either side, |x| <= 50) and 12 binary functions x 13^2 pairs, "
+               "float and double, eager and lazy, against the documented definition evaluated in double.",
     units=[U("g%d" % g, "harness/c07_ufuncs.cpp", flags=["-DC07_GROUP=%d" % g], weight=(2 if g <= 8 else 1)) for g in range(1, 13)] +
+          [U("scalar_ref", "harness/c07_scalar.cpp", family="scalar", shards=1, weight=1)] +
           [U("g%d_san" % g, "harness/c07_ufuncs.cpp", flags=["-DC07_GROUP=%d" % g], san=True, family="g%d" % g, shadow=True, tiers=["thorough"], run_tier="quick", asan_options="malloc_context_size=0") for g in (1, 7, 8, 12)],
     rule="case = (function, type pair, kind pair, shapes); non-trivial = shapes broadcastable, result has >= 2 elements and (an operand is stretched / rank-extended / scalar, or is a transposed view of rank >= 2, or the "
          "element types differ); unary: result size >= 2; outer: both operands >= 2 elements; distinct = distinct key",
